@@ -46,11 +46,12 @@ Theorem C02_scale_sparse_req : (forall v, isz v = true <-> v = v0) ->
     forall i, den_sp v0 R i = spec_scale vmul (den_sp v0 S) (nats (np_sort d)) g i.
 Proof. exact (scale_sparse_req V v0 v1 vadd vmul vsub vopp Vring isz). Qed.
 
-(* d89c921: an ill-shaped tensor / sptensor factor is rejected by EVERY receiver — also by one that stores no entry *)
-Theorem C02_scale_sparse_req_rejects_shape : forall (S : sparse V) (d : vec) (fshape : shape) (g : idx -> V),
+(* d89c921 + 98f7017: an ill-shaped factor of EVERY class (nd = 1-d numpy array, otherwise tensor / sptensor) is rejected by EVERY receiver — also by
+   one that stores no entry *)
+Theorem C02_scale_sparse_req_rejects_shape : forall (S : sparse V) (d : vec) (nd : bool) (fshape : shape) (g : idx -> V),
   dims_ok (Z.of_nat (length (sshape S))) None d ->
   fshape <> pick 0 (nats (np_sort d)) (sshape S) ->
-  impl_scale_sp_req vmul isz S d false fshape g = Err.
+  impl_scale_sp_req vmul isz S d nd fshape g = Err.
 Proof. exact (scale_sparse_req_rejects_shape V vmul isz). Qed.
 
 Theorem C02_scale_sparse_req_rejects_dims : forall (S : sparse V) (d : vec) nd (fshape : shape) (g : idx -> V),
